@@ -681,8 +681,13 @@ func TestC18PartiallyBlind(t *testing.T) {
 	defer vlib.Done()
 	selftest(t)
 	ks := mustPool(t)
-	vlib.Check(t, vlib.N(300, 600), func(t *rapid.T) { pbCase(t, ks) })
+	vlib.Check(t, vlib.N(240, 600), func(t *rapid.T) { pbCase(t, ks) })
 }
+
+// metadata lengths around 2^8 and 2^16 (one-, two- and four-byte length prefixes differ there)
+var mdEdgeLens = []int{255, 256, 257, 65535, 65536, 65537, 65536 + 4660}
+
+const mdBufLen = 65536 + 4660
 
 func pbCase(t *rapid.T, ks []poolKey) {
 	sub := "pbrsa"
@@ -692,13 +697,18 @@ func pbCase(t *rapid.T, ks []poolKey) {
 	h := rapid.SampledFrom(pbHashes(k.bits)).Draw(t, "hash")
 	msg := vlib.Msg(t, "msg")
 	// the caller's metadata lives in ONE buffer that is overwritten in place between protocol rounds
-	mdBuf := make([]byte, 64)
+	mdBuf := make([]byte, mdBufLen)
 	var md []byte
-	switch rapid.IntRange(0, 3).Draw(t, "mdKind") {
+	switch rapid.IntRange(0, 7).Draw(t, "mdKind") {
 	case 0:
 		md = mdBuf[:0]
 	case 1:
 		md = mdBuf[:copy(mdBuf, "metadata")]
+	case 2:
+		// lengths around the widths of a length prefix (the framing carries a 32-bit length)
+		md = mdBuf[:rapid.SampledFrom(mdEdgeLens).Draw(t, "mdEdgeLen")]
+		vlib.FillRandom(t, md, "md")
+		vlib.Class(sub, "metadata-length>=2^16:"+fmt.Sprint(len(md) >= 1<<16))
 	default:
 		md = mdBuf[:copy(mdBuf, vlib.Bytes(t, 0, 64, "md"))]
 	}
@@ -708,7 +718,7 @@ func pbCase(t *rapid.T, ks []poolKey) {
 	vlib.Eval(sub)
 	vlib.Class(sub, keyClass(k))
 	vlib.Class(sub, fmt.Sprintf("hash=%v", h))
-	desc := fmt.Sprintf("key=%s hash=%v msg=%x metadata=%x salt=%x r1=%x r2=%x", k.name, h, msg, md, salt, r1, r2)
+	desc := fmt.Sprintf("key=%s hash=%v msg=%x metadata(%d bytes)=%s salt=%x r1=%x r2=%x", k.name, h, msg, len(md), vlib.Hex(md), salt, r1, r2)
 
 	verifier := partiallyblindrsa.NewVerifier(pk, h)
 	signer, err := partiallyblindrsa.NewSigner(k.key, h)
@@ -857,6 +867,9 @@ func pbCase(t *rapid.T, ks []poolKey) {
 			}
 		case "other-length":
 			n := rapid.IntRange(0, 64).Draw(t, fmt.Sprintf("mdlen%d", rd))
+			if rapid.IntRange(0, 7).Draw(t, fmt.Sprintf("mdlenEdge%d", rd)) == 0 {
+				n = rapid.SampledFrom(mdEdgeLens).Draw(t, fmt.Sprintf("mdEdgeLen%d", rd))
+			}
 			md = mdBuf[:n]
 			if n > 0 {
 				vlib.FillRandom(t, md, fmt.Sprintf("md%d", rd))
@@ -871,7 +884,11 @@ func pbCase(t *rapid.T, ks []poolKey) {
 		saltR := vlib.EdgeBytes(t, h.Size(), fmt.Sprintf("salt%d", rd))
 		rR, rRinv := drawBlind(t, N, fmt.Sprintf("rr%d", rd))
 		vlib.Eval(subQ)
-		descR := fmt.Sprintf("%s | round %d on the same Signer/Verifier: metadata buffer %s → %x (history %x) msg=%x salt=%x r=%x", desc, rd+2, kind, mdCopy, history, msgR, saltR, rR)
+		hist := ""
+		for _, hm := range history {
+			hist += fmt.Sprintf("[%d]%s ", len(hm), vlib.Hex(hm))
+		}
+		descR := fmt.Sprintf("%s | round %d on the same Signer/Verifier: metadata buffer %s → (%d bytes) %s (history %s) msg=%x salt=%x r=%x", desc, rd+2, kind, len(mdCopy), vlib.Hex(mdCopy), hist, msgR, saltR, rR)
 		bm, stR, err := verifier.FixedBlind(msgR, md, saltR, rR.Bytes(), rRinv.Bytes())
 		if err != nil {
 			vlib.Report(t, "C18/pbrsa/rounds/FixedBlind", descR+": "+err.Error())
@@ -896,7 +913,7 @@ func pbCase(t *rapid.T, ks []poolKey) {
 			vlib.Report(t, "C18/pbrsa/rounds/not-a-PSS-signature-under-derived-key", fmt.Sprintf("%s: sig=%x", descR, sigR))
 			return
 		}
-		vlib.NonTrivial(subQ, "round:"+kind, []byte(k.name), []byte(h.String()), msgR, mdCopy, saltR, rR.Bytes(), []byte(fmt.Sprint(history)))
+		vlib.NonTrivial(subQ, "round:"+kind, []byte(k.name), []byte(h.String()), msgR, mdCopy, saltR, rR.Bytes(), []byte(hist))
 	}
 }
 
@@ -1142,6 +1159,11 @@ func TestC18VerifierEquiv(t *testing.T) {
 			sub := "verify-equiv/pbrsa"
 			msg := vlib.Msg(t, "msg")
 			md := vlib.Bytes(t, 0, 24, "md")
+			if rapid.IntRange(0, 15).Draw(t, "mdEdge") == 0 {
+				md = make([]byte, rapid.SampledFrom(mdEdgeLens).Draw(t, "mdEdgeLen"))
+				vlib.FillRandom(t, md, "mdlong")
+				vlib.Class(sub, "metadata-length>=2^16:"+fmt.Sprint(len(md) >= 1<<16))
+			}
 			N := k.key.N
 			ePrime, dPrime := derived(k, h, md)
 			if dPrime == nil {
@@ -1169,7 +1191,7 @@ func TestC18VerifierEquiv(t *testing.T) {
 				if what == "sig+N" && cerr == nil {
 					key = keyNotReduced
 				}
-				if vlib.Report(t, key, fmt.Sprintf("key=%s hash=%v craft=%s msg=%x metadata=%x sig=%x: circl err=%v, RFC 8017 reference err=%v", k.name, h, kind, m2, md, sig, cerr, rerr)) {
+				if vlib.Report(t, key, fmt.Sprintf("key=%s hash=%v craft=%s msg=%x metadata(%d bytes)=%s sig=%x: circl err=%v, RFC 8017 reference err=%v", k.name, h, kind, m2, len(md), vlib.Hex(md), sig, cerr, rerr)) {
 					return
 				}
 			}
